@@ -103,10 +103,9 @@ func TestFindingModuleWithoutBufYAML(t *testing.T) {
 	}
 	cat(t, "buf.yaml")
 	res := cli(t, "lint")
+	// repaired in /repo by dc1268e: after the migration lint must stay clean
 	if res.ExitCode != 0 && strings.Contains(res.Stdout, "should not be required") {
-		t.Logf("REPRODUCED: new lint failure after migration")
-	} else {
-		t.Errorf("not reproduced")
+		t.Errorf("defect is back: new lint failure after migration")
 	}
 }
 
